@@ -234,6 +234,7 @@ class Report:
                 known_findings_hit=[dict(id=k.get('id'), key=v.key) for k, v in self.known_hits],
                 trusted_base=self.trusted,
                 explanation=self.extra.get('explanation', ''),
+                cvc5_crosscheck=_xcheck_stats(),
                 **{k: v for k, v in self.extra.items() if k != 'explanation'},
             ),
             assumptions=self.assumptions,
@@ -244,6 +245,16 @@ class Report:
             json.dump(ev, f, indent=1, default=str)
         print(f'{self.prop} [{self.tier}] obligations={n_ob} discharged={n_dis} violations={len(real)} known={len(self.known_hits)} inconclusive={len(self.inconclusive) + len(unrepro)} paths={self.paths} queries={self.queries} solver={self.solver_s:.1f}s wall={wall:.1f}s -> exit {status}')
         return status
+
+
+def _xcheck_stats():
+    try:
+        from mirsym import core
+        x = core.XCHECK
+        return dict(enabled=x['enabled'], final_queries_seen=x['seen'], re_decided_by_cvc5=x['checked'], agreed=x['agreed'], cvc5_unknown_or_timeout=x['cvc5_unknown'], disagreed=x['disagreed'], cvc5_time_s=round(x['cvc5_s'], 1),
+                    note='sampled (every 7th final query of the main process, at most 150); worker processes of parallel sweeps keep their own counters (not aggregated)')
+    except Exception:
+        return None
 
 
 # ------------------------------------------------------------------------------------------------ parallel sweeps
